@@ -29,6 +29,19 @@ Theorem C21_parents_return : forall b j v off,
   locate (reveal_outputs b) (sum (firstn j (map fst (b_parents b))) + off) = Some (N.of_nat j, off).
 Proof. exact parents_return. Qed.
 
+(* The same with the position read off the reveal inputs (parents first, then the satpoints'
+   outputs, then the commit output at index `commit_input`), whatever the commit output is worth. *)
+Theorem C21_parents_return_fifo : forall b c j v off,
+  nth_error (b_parents b) j = Some (v, off) -> off < v ->
+  nth_error (reveal_input_values b c) j = Some v /\
+  locate (reveal_outputs b) (sum (firstn j (reveal_input_values b c)) + off) = Some (N.of_nat j, off).
+Proof. exact parents_return_fifo. Qed.
+
+Theorem C21_commit_input_position : forall b c,
+  nth_error (reveal_input_values b c) (N.to_nat (commit_input b)) = Some c /\
+  (N.to_nat (commit_input b) + 1 = length (reveal_input_values b c))%nat.
+Proof. exact commit_input_position. Qed.
+
 (* Etching with a premine: the reported rune output is the output the runestone points to; it
    is the TARGET_POSTAGE change output and it is followed only by the runestone output. *)
 Theorem C21_rune_output : forall b v, rune_vout b = Some v ->
@@ -64,5 +77,7 @@ Proof. cbv zeta. split; [split; [cbn; lia|reflexivity]|]. vm_compute. repeat spl
 
 Print Assumptions C21_reported_is_located.
 Print Assumptions C21_parents_return.
+Print Assumptions C21_parents_return_fifo.
+Print Assumptions C21_commit_input_position.
 Print Assumptions C21_rune_output.
 Print Assumptions C21_commit_spends_only_cardinal.
